@@ -7,6 +7,7 @@ namespace Updater.Abi
 /-- C-level types, ABI-relevant part only (const / mut are not part of the ABI). -/
 inductive CTy where
   | void | bool | u8 | i32 | i64 | int | usize | char
+  | i8 | i16 | u16 | u32 | u64 | isize          -- the rest of the fixed-width family: a declaration may drift to any of them
   | ptr (t : CTy)
   | struct (name : Nat)                       -- by value, `name` = identifier index
   | fn0 (ret : CTy)
@@ -30,9 +31,10 @@ deriving DecidableEq, Repr
     the three C-visible structs; `none` if one ever does). -/
 def sizeAlign : CTy → Option (Nat × Nat)
   | .void => none
-  | .bool | .u8 | .char => some (1, 1)
-  | .i32 | .int => some (4, 4)
-  | .i64 | .usize => some (8, 8)
+  | .bool | .u8 | .char | .i8 => some (1, 1)
+  | .i16 | .u16 => some (2, 2)
+  | .i32 | .int | .u32 => some (4, 4)
+  | .i64 | .usize | .u64 | .isize => some (8, 8)
   | .ptr _ | .fn0 _ | .fn1 _ _ | .fn2 _ _ _ | .fn3 _ _ _ _ => some (8, 8)
   | .struct _ => none
 
